@@ -490,6 +490,10 @@ func (e *esdtNFTMultiTransfer) addNFTToDestination(
 		esdtDataToTransfer.Value.Add(esdtDataToTransfer.Value, currentESDTData.Value)
 	}
 
+	// the flags stored with a holding (frozen) belong to the account that holds it: what arrives is a
+	// quantity, the destination keeps its own flags - the sender's do not travel
+	esdtDataToTransfer.Properties = currentESDTData.Properties
+
 	_, err = saveESDTNFTToken(userAccount, esdtTokenKey, esdtDataToTransfer, e.marshalizer, e.pauseHandler, isReturnCallWithError)
 	if err != nil {
 		return err
